@@ -116,11 +116,11 @@ def check_C05(ctx):
             continue
         src = b"\n".join(render_block(b) for b in blocks) + b"\nbind " + btype.encode() + (b":all -> slice\n" if slice_ else b" -> struct\n")
         cases.append(dict(id="u%d" % i, type=dict(k="slice", elem=ty) if slice_ else ty, mode="ptr", bkind="slice" if slice_ else "struct",
-                          blocks=blocks, src=src, prev=rng.choice([0, 3])))
+                          blocks=blocks, src=src, prev=rng.choice([0, 3]), prefill=rng.random() < 0.4))
     # 1. Bind of the blocks themselves (reference), 2. Unmarshal of the text, 3. the model's reading of the text
-    bres, _, _ = ctx.probe("bind", [dict(id=c["id"], type=c["type"], mode="ptr", bkind=c["bkind"], blocks=c["blocks"], prev=c["prev"])
-                                    for c in cases], tag="ref")
-    ures, missing, err = ctx.probe("unmarshal", [dict(id=c["id"], type=c["type"], src_hex=c["src"].hex(), prev=c["prev"]) for c in cases])
+    bres, _, _ = ctx.probe("bind", [dict(id=c["id"], type=c["type"], mode="ptr", bkind=c["bkind"], blocks=c["blocks"], prev=c["prev"],
+                                         prefill=c["prefill"]) for c in cases], tag="ref")
+    ures, missing, err = ctx.probe("unmarshal", [dict(id=c["id"], type=c["type"], src_hex=c["src"].hex(), prev=c["prev"], prefill=c["prefill"]) for c in cases])
     mres = ctx.model([("interp", c["id"], F("input", c["src"], "")) for c in cases])
     mbind = ctx.model([model_item(c) for c in cases])
     ndis = 0
